@@ -1,14 +1,106 @@
-"""C02, layer S part (filled in once the simulation layer exists)."""
+"""C02, layer S part: real APIConnection.send_messages batches on a simulated plaintext / Noise session.
+
+Every batch must be exactly ONE transport write; the bytes of all writes, parsed by the independent
+codec on the device side (Noise: decrypted under consecutive explicit nonces), must be exactly the
+frames (descriptor id of the message's class, serialised payload) in order.
+"""
+from __future__ import annotations
+
 from hypothesis import strategies as st
+
+from vf import pbgen, wire
+from vf.runner import CaseResult, HarnessError, Violation
+from vf.sess import Session
+from vf.simloop import START, IterationCap
+
+ID = "C02"
+
+
+def client_classes() -> list:
+    src = wire.descriptor_sources()
+    by_id = wire.ids()[0]
+    return [by_id[i] for i in sorted(by_id) if src[by_id[i].__name__] != 1 and i not in (1, 3, 5, 6)]
+
+
+def run_case(case: dict) -> CaseResult:
+    from aioesphomeapi import api_pb2 as pb
+
+    res = CaseResult()
+    noise = bool(case.get("noise"))
+    s = Session(noise=noise, keepalive=512.0, auto=set())
+    env = s.env
+    idof = wire.ids()[1]
+    expected: list = []
+    marks: list = []
+
+    def then(sess: Session):
+        conn = sess.conn
+        tr = sess.dsess.transport
+        for batch in case["batches"]:
+            msgs = tuple(pbgen.build(getattr(pb, n), spec) for n, spec in batch)
+            n0 = tr.n_writes
+            seq0 = len(env.trace)
+            if len(msgs) == 1 and case.get("single_api"):
+                conn.send_message(msgs[0])
+            else:
+                conn.send_messages(msgs)
+            marks.append((tr.n_writes - n0, len(msgs)))
+            expected.extend((idof[type(m)], m.SerializeToString()) for m in msgs)
+        env.log("batches_done")
+        env.spawn("final", sess.cli.disconnect(force=True))
+
+    s.start(then)
+    env.loop.horizon = START + 60
+    try:
+        s.run()
+    except IterationCap as e:
+        s.close()
+        raise HarnessError(f"C02 api: {e}") from e
+    if s.t0 is None:
+        s.close()
+        raise HarnessError("C02 api: session not established")
+    for i, (nw, nm) in enumerate(marks):
+        if nw != 1:
+            res.violations.append(Violation(ID, "c02:api:writes-per-batch", f"batch {i} with {nm} messages caused {nw} transport writes"))
+            break
+    c0 = next(e["seq"] for e in env.trace if e["kind"] == "connected")
+    c1 = next((e["seq"] for e in env.trace if e["kind"] == "batches_done"), 10**9)
+    got = [(e["type"], e["payload"]) for e in env.trace if e["kind"] == "rx" and c0 < e["seq"] < c1]
+    errs = [e["text"] for e in env.trace if e["kind"] == "device_wire_error"]
+    if errs:
+        res.violations.append(Violation(ID, "c02:api:undecodable-on-device", f"{errs[:2]}"))
+    elif got != expected:
+        k = next((i for i, (a, b) in enumerate(zip(got, expected)) if a != b), min(len(got), len(expected)))
+        res.violations.append(Violation(ID, "c02:api:frames-differ", f"frame {k}: device decoded {[(t, p.hex()[:16]) for t, p in got[k:k + 2]]}, expected {[(t, p.hex()[:16]) for t, p in expected[k:k + 2]]} ({len(got)} vs {len(expected)} frames)"))
+    res.classes = ["api"] + (["noise"] if noise else ["plain"]) + (["batch_ge_2"] if any(nm > 1 for _, nm in marks) else [])
+    if noise and len(marks) >= 3:
+        res.classes.append("noise_writes_ge_3")
+    res.nontrivial = any(nm > 1 for _, nm in marks) or len(marks) >= 3
+    res.info = {"batches": len(marks), "frames": len(expected)}
+    s.close()
+    return res
+
+
+@st.composite
+def _case(draw, tier):
+    classes = client_classes()
+    batches = []
+    for _ in range(draw(st.integers(1, 10))):
+        batch = []
+        for _ in range(draw(st.sampled_from([1, 1, 2, 3]))):
+            cls = draw(st.sampled_from(classes))
+            batch.append([cls.__name__, draw(pbgen.message_strategy(cls))])
+        batches.append(batch)
+    return {"mode": "api", "noise": draw(st.booleans()), "single_api": draw(st.booleans()), "batches": batches}
 
 
 def strategy(tier):
-    return st.nothing()
+    return _case(tier)
 
 
 def enumerated(tier):
-    return iter(())
-
-
-def run_case(case):
-    raise NotImplementedError
+    names = [c.__name__ for c in client_classes()]
+    for noise in (False, True):
+        for lo in range(0, len(names), 6):
+            yield {"mode": "api", "noise": noise, "batches": [[[n, {}] for n in names[lo:lo + 3]], [[n, {}]] if False else [[n, {}] for n in names[lo + 3:lo + 6]] or [[names[0], {}]]]}
+        yield {"mode": "api", "noise": noise, "single_api": True, "batches": [[[n, {}]] for n in names[:12]]}
